@@ -5,6 +5,9 @@
 //	             app's store, plus the real mint/burn sites of the nodes keeper (RewardForRelays,
 //	             BurnForChallenge) as "ext" lines; after every operation the whole bank state
 //	             (all accounts through the auth store iterator + the supply entry) is dumped.
+//	-mode genesis  the real auth.InitGenesis (module level) on a fresh app per case: account lists with
+//	             duplicate addresses, duplicated module accounts, zero-coin accounts, supply omitted or
+//	             given; the initial state is an `init` line, followed by a few real mint/burn/send calls.
 //	-mode chain  generated block histories with the full transaction mix (chain.World.GenBlock); the
 //	             bank state is dumped after BeginBlock, after every DeliverTx, after EndBlock and
 //	             after Commit.
@@ -29,6 +32,8 @@ import (
 
 	sdk "github.com/pokt-network/pocket-core/types"
 	appsTypes "github.com/pokt-network/pocket-core/x/apps/types"
+	"github.com/pokt-network/pocket-core/x/auth"
+	authexp "github.com/pokt-network/pocket-core/x/auth/exported"
 	authTypes "github.com/pokt-network/pocket-core/x/auth/types"
 	govTypes "github.com/pokt-network/pocket-core/x/gov/types"
 	nodesTypes "github.com/pokt-network/pocket-core/x/nodes/types"
@@ -59,9 +64,43 @@ func modsLine(n *chain.Node) string {
 	return strings.Join(ps, ";")
 }
 
+// genesisVariant selects how the auth genesis of the chain/ops streams looks (seed % 3):
+// 0 duplicate addresses (same and different coins; the later entry wins), supply omitted (derived);
+// 1 the same plus zero-coin accounts, supply omitted; 2 duplicates, supply given (= Σ effective accounts).
+var genesisVariant uint64
+
+func effectiveTotal(accs []authexp.Account) sdk.Coins {
+	last := map[string]sdk.Coins{}
+	for _, a := range accs {
+		last[a.GetAddress().String()] = a.GetCoins()
+	}
+	tot := sdk.NewCoins()
+	for _, k := range chain.SortedKeys(last) {
+		tot = tot.Add(last[k])
+	}
+	return tot
+}
+
 func boot() (*chain.World, chain.GenesisOpts, *chain.Node, *bankdrv.Stepper) {
 	chain.ModernGlobals()
 	w, o := chain.DefaultWorld("verif", 3, 2, 2, 4)
+	variant := genesisVariant
+	o.Mutate = func(g *chain.Genesis) {
+		coin := func(a int64) sdk.Coins { return sdk.NewCoins(sdk.NewCoin(sdk.DefaultStakeDenom, sdk.NewInt(a))) }
+		k1, k2 := w.Accts[1], w.Accts[2]
+		// the same address again with the same coins, and another one again with different coins
+		g.Auth.Accounts = append(g.Auth.Accounts,
+			&auth.BaseAccount{Address: k1.Addr, Coins: coin(1000000000000), PubKey: k1.Pub},
+			&auth.BaseAccount{Address: k2.Addr, Coins: coin(777000000000), PubKey: k2.Pub})
+		if variant == 1 {
+			z := chain.KeyN(5000)
+			g.Auth.Accounts = append(g.Auth.Accounts, &auth.BaseAccount{Address: z.Addr, Coins: sdk.NewCoins(), PubKey: z.Pub},
+				&auth.BaseAccount{Address: k2.Addr, Coins: sdk.NewCoins(), PubKey: k2.Pub})
+		}
+		if variant == 2 {
+			g.Auth.Supply = effectiveTotal(g.Auth.Accounts)
+		}
+	}
 	// validators hold two stake bins: BurnForChallenge then burns a non-zero amount on every call and
 	// the validator stays above the minimum (with minimum+1e6 the weight bin rounds to 0: C27's subject)
 	o.ValidatorStake = 2 * o.MinStake
@@ -85,8 +124,11 @@ func main() {
 	flag.Parse()
 	t := gen.NewTrace(*out)
 	r := gen.New(*seed)
+	genesisVariant = *seed % 3
 	if *mode == "chain" {
 		runChain(t, r, *n)
+	} else if *mode == "genesis" {
+		runGenesis(t, r, *n)
 	} else {
 		runOps(t, r, *n)
 	}
@@ -311,4 +353,78 @@ func runChain(t *gen.Trace, r *gen.R, blocks int) {
 		}
 	}
 	t.Close(map[string]interface{}{"tx_codes": codes})
+}
+
+// runGenesis drives auth.InitGenesis directly (as the module manager does during InitChain, but without
+// auth.ValidateGenesis in front, so module accounts — which have no public key — can be listed).
+func runGenesis(t *gen.Trace, r *gen.R, cases int) {
+	coin := func(a int64) sdk.Coins {
+		if a == 0 {
+			return sdk.NewCoins()
+		}
+		return sdk.NewCoins(sdk.NewCoin(sdk.DefaultStakeDenom, sdk.NewInt(a)))
+	}
+	for c := 0; c < cases; c++ {
+		chain.ModernGlobals()
+		_, o := chain.DefaultWorld("verif", 1, 0, 0, 1)
+		n := chain.NewNode(chain.BuildGenesis(o), "verif", o.GenesisTime, dbm.NewMemDB(), dbm.NewMemDB(), dbm.NewMemDB(), false)
+		ak := n.App.VerifAccountKeeper()
+		ctx := n.Ctx()
+		var accs []authexp.Account
+		nk := 2 + r.Intn(5)
+		for i := 0; i < nk; i++ {
+			k := chain.KeyN(6000 + uint64(r.Intn(5))) // 5 addresses: duplicates are frequent
+			accs = append(accs, &auth.BaseAccount{Address: k.Addr, Coins: coin([]int64{0, 1, 5, 1000000, 1000000, 999999999}[r.Intn(6)]), PubKey: k.Pub})
+		}
+		for i := r.Intn(3); i > 0; i-- { // module accounts, possibly twice
+			m := modNames[r.Intn(4)]
+			ma := authTypes.NewEmptyModuleAccount(m, authTypes.Minter, authTypes.Burner, authTypes.Staking)
+			_ = ma.SetCoins(coin([]int64{0, 7, 50000}[r.Intn(3)]))
+			accs = append(accs, ma)
+		}
+		data := auth.GenesisState{Params: authTypes.DefaultParams(), Accounts: accs}
+		kind := "derived"
+		if r.Chance(1, 3) {
+			data.Supply, kind = effectiveTotal(accs), "given"
+		}
+		dup := "nodup"
+		seen := map[string]bool{}
+		for _, a := range accs {
+			if seen[a.GetAddress().String()] {
+				dup = "dup"
+			}
+			seen[a.GetAddress().String()] = true
+		}
+		auth.InitGenesis(ctx, ak, data)
+		t.Line("genesis-"+kind+"-"+dup, dup == "dup", "init %s => %s", modsLine(n), bankdrv.DumpBank(n, n.Ctx()))
+		// along the history: a few real keeper calls on that state
+		for j := 0; j < 4; j++ {
+			a1, a2 := accs[r.Intn(len(accs))].GetAddress(), accs[r.Intn(len(accs))].GetAddress()
+			amt := int64(r.Intn(8))
+			m := modNames[r.Intn(4)]
+			var desc string
+			var call func() sdk.Error
+			switch r.Intn(3) {
+			case 0:
+				desc = fmt.Sprintf("send %s %s %d", a1, a2, amt)
+				call = func() sdk.Error { return ak.SendCoins(ctx, a1, a2, bankdrv.Coins(amt)) }
+			case 1:
+				desc = fmt.Sprintf("mint %s %d", m, amt)
+				call = func() sdk.Error { return ak.MintCoins(ctx, m, bankdrv.Coins(amt)) }
+			default:
+				desc = fmt.Sprintf("burn %s %d", m, amt)
+				call = func() sdk.Error { return ak.BurnCoins(ctx, m, bankdrv.Coins(amt)) }
+			}
+			res := func() (res string) {
+				defer func() {
+					if p := recover(); p != nil {
+						res = "panic"
+					}
+				}()
+				return bankdrv.ErrClass(call())
+			}()
+			t.Line("genesis-op/"+res, res == "ok", "op %s => %s %s", desc, res, bankdrv.DumpBank(n, n.Ctx()))
+		}
+	}
+	t.Close(nil)
 }
